@@ -179,6 +179,9 @@ def build(tier, repo):
                          "guard true whenever size is given", cx.unparse(ce_))
         else:
             r2.ok(key, where, cx.unparse(ce_))
+    from .. import cwrap_rules as cw
+    for fname in ("dense.c", "base.c", "sparse.c"):
+        cw.buildvalue_rule(r2, cs[fname], cs[fname].order)
     r2.require(7)
 
     r3 = chk.rule("C20-R3", "tofile/fromfile use the same byte count on the matrix buffer; fromfile checks the bytes read",
